@@ -105,8 +105,10 @@ func (g *Gzip) OnUnpack(src []byte) (dest []byte, err error) {
 	err = gr.Reset(bytes.NewReader(src))
 	if err == nil {
 		dest, err = ioutil.ReadAll(gr)
+		// only a reader that was reset successfully can be closed
+		// (Close of a never initialised gzip.Reader dereferences nil)
+		gr.Close()
 	}
-	gr.Close()
 	g.rPool.Put(gr)
 	return dest, err
 }
